@@ -750,7 +750,7 @@ pub trait BrokerOperations<O: BrokerOrder, Q: BrokerQuote>:
             let target_val = total_value * target_weights.get(symbol).unwrap();
             let diff_val = target_val - curr_val;
             if (diff_val).eq(&0.0) {
-                break;
+                continue;
             }
 
             //We do not throw an error here, we just proceed assuming that the client has passed in data that will
